@@ -182,6 +182,9 @@ func (t *translator) expr(e ast.Expr) string {
 		if id, ok := x.Fun.(*ast.Ident); ok && id.Name == "len" && len(x.Args) == 1 {
 			return "(" + t.expr(x.Args[0]) + ").length"
 		}
+		if id, ok := x.Fun.(*ast.Ident); ok && id.Name == "make" {
+			return "[]" // an empty slice or map
+		}
 		if id, ok := x.Fun.(*ast.Ident); ok && id.Name == "append" && len(x.Args) == 2 {
 			return "(" + t.expr(x.Args[0]) + " ++ [" + t.expr(x.Args[1]) + "])"
 		}
@@ -282,6 +285,11 @@ func (t *translator) stmts(list []ast.Stmt, next func() string, cont, brk string
 			}
 			if w, ok := t.spec.wraps[goStr(c)]; ok {
 				return w(tail())
+			}
+			for pre, w := range t.spec.wraps {
+				if strings.HasSuffix(pre, "*") && strings.HasPrefix(goStr(c), strings.TrimSuffix(pre, "*")) {
+					return w(tail())
+				}
 			}
 			if id, ok := c.Fun.(*ast.Ident); ok && id.Name == "close" && len(c.Args) == 1 && t.spec.closeEv {
 				return "(let " + t.spec.evVar + " := " + t.spec.evVar + " ++ [" + t.expr(c.Args[0]) + "]; " + tail() + ")"
@@ -443,6 +451,12 @@ func (t *translator) stmts(list []ast.Stmt, next func() string, cont, brk string
 			}
 			pre = "let " + k.Name + " := kv.1; let " + v + " := kv.2; "
 			v = "kv"
+		} else if ln, okl := t.lookup(x.X); okl {
+			if _, okm := t.spec.mapDefault[ln]; okm {
+				// the values of a tracked map
+				pre = "let " + v + " := kv.2; "
+				v = "kv"
+			}
 		}
 		t.loops++
 		kont := fmt.Sprintf("kont%d", t.loops)
@@ -753,6 +767,51 @@ func genWM(repo, out string) {
 		d = fmt.Sprintf("/-- UNTRANSLATABLE: %s -/\ndef %s : Unit := ()\n", strings.ReplaceAll(err.Error(), "-/", "- /"), spec.leanName)
 	}
 	sb.WriteString(d + "\nend GenWM\n")
+	if err := os.WriteFile(out, []byte(sb.String()), 0644); err != nil {
+		fatal(err)
+	}
+}
+
+// genLevel writes Generated/Level.lean: levelManager.discardStaleEntries
+func genLevel(repo, out string) {
+	p := parseDir(repo)
+	var sb strings.Builder
+	sb.WriteString("import Originium.Model.Levels\n")
+	sb.WriteString("/-! GENERATED by /verif/extract (gotrans.go) from /repo/level.go on every check run. Do not edit.\n")
+	sb.WriteString("    `discardStale`: levelManager.discardStaleEntries.  `types.ParseKey` / `types.ParseTs` of an entry's key are the\n")
+	sb.WriteString("    projections of the model's versioned key; `slices.SortFunc` is a parameter (any function; the tie theorem asks\n")
+	sb.WriteString("    that it keeps the elements); the Go map is an association list with unique keys, ranged over in list order.\n")
+	sb.WriteString("    `Model/LevelTie.lean` proves that the output is an accepted compaction output (`Compact.Allowed`). -/\n")
+	sb.WriteString("set_option linter.unusedVariables false\nnamespace GenLevel\n\n")
+	fd := findFunc(p, "levelManager", "discardStaleEntries")
+	spec := transSpec{
+		leanName: "discardStale",
+		binders:  "(sort : List Levels.E → List Levels.E) (lowIn : Nat) (entries : List Levels.E)",
+		retType:  "List Levels.E",
+		exprMap: map[string]string{"lm.db.oracle.discardAtOrBelow()": "lowIn", "types.ParseKey(entry.Key)": "entry.key.user",
+			"types.ParseTs(entry.Key)": "entry.key.ts", "types.ParseTs(maxEntry.Key)": "maxEntry.key.ts"},
+		state: []string{"res", "latest"}, stateLn: []string{"res", "latest"},
+		mapDefault: map[string]string{"latest": "default"},
+		wraps: map[string]func(string) string{
+			"slices.SortFunc(res, *": func(tail string) string { return "(let res := sort res; " + tail + ")" },
+		},
+		ret:      func(vals []string, st []string) string { return vals[0] },
+		fallOff:  func(st []string) string { return "res" },
+		panicVal: "[]",
+		skipCall: func(c *ast.CallExpr) bool { return strings.HasPrefix(goStr(c.Fun), "vhook.") },
+	}
+	var d string
+	err := fmt.Errorf("levelManager.discardStaleEntries not found")
+	if fd != nil {
+		t := &translator{spec: spec}
+		tr := t.stmts(fd.Body.List, func() string { return spec.fallOff(spec.stateLn) }, "", "")
+		err = t.err
+		d = fmt.Sprintf("def %s %s : %s :=\n  let res : List Levels.E := []\n  let latest : List (Key.Bytes × Levels.E) := []\n  %s\n", spec.leanName, spec.binders, spec.retType, tr)
+	}
+	if err != nil {
+		d = fmt.Sprintf("/-- UNTRANSLATABLE: %s -/\ndef %s : Unit := ()\n", strings.ReplaceAll(err.Error(), "-/", "- /"), spec.leanName)
+	}
+	sb.WriteString(d + "\nend GenLevel\n")
 	if err := os.WriteFile(out, []byte(sb.String()), 0644); err != nil {
 		fatal(err)
 	}
